@@ -230,32 +230,7 @@ func c07(r *Run) {
 	}
 	errMappingRules(r, "C07.R2")
 
-	// ---- R3 close wakes ----------------------------------------------------------------------------
-	for _, c := range []struct {
-		fn  *ssa.Function
-		who int64
-	}{{ro.onHup, ro.whoPoller}, {ro.onClose, ro.whoUser}} {
-		starts := edgesEstablishing(c.fn, callResultAtom(ro.closeBy, true))
-		for _, t := range []struct {
-			name string
-			fn   *ssa.Function
-		}{{"read", ro.triggerRead}, {"write", ro.triggerWrite}} {
-			isTrig := func(i ssa.Instruction) bool {
-				if !isCall(i, t.fn) {
-					return false
-				}
-				return !isNilConst(argVal(callCommon(i), 0))
-			}
-			r.mustPass("C07.R3:close-wakes-"+t.name+":"+c.fn.Name(), "after a successful closeBy the closer pushes a non-nil error on the "+t.name+" trigger on every path (a blocked reader / flusher is woken)", c.fn, nil, starts, isTrig, nil, nil, "trigger"+t.name+"(err) on every path")
-			// and before the callbacks recycle the buffers
-			for _, cb := range findIns(c.fn, func(i ssa.Instruction) bool { return isCall(i, ro.closeCallback) }) {
-				ss := &Search{Fn: c.fn, Stop: isTrig}
-				wit := ss.Find(starts, isIns(cb), false)
-				r.Visited += ss.Visited
-				r.obW("C07.R3:wake-before-callbacks-"+t.name+":"+siteKey(w, cb), "the wake-up precedes the close callbacks on the closing path", c.fn, cb, wit, "trigger before closeCallback")
-			}
-		}
-	}
+	closeWakeRules(r, "C07.R3")
 	// trigger shape: non-blocking send on a capacity-1 channel
 	for _, t := range []struct {
 		fn    *ssa.Function
@@ -586,4 +561,56 @@ func expiredRule(r *Run, fn *ssa.Function, errName, prefix string) {
 	}
 	starts := edgesEstablishing(fn, expired)
 	r.mustPass(prefix+":expired-deadline-returns-timeout:"+fn.Name(), "when the deadline has already passed the call returns "+errName, fn, nil, starts, w.isException(errName), nil, nil, "Exception("+errName+") on every path from remaining<=0")
+}
+
+// closeWakeRules: after a successful closeBy both triggers get a non-nil error, before the close callbacks and before
+// any user callback (OnDisconnect) can run.
+func closeWakeRules(r *Run, prefix string) {
+	w := r.W
+	ro := rolesOf(w)
+	px := protoEffects(w)
+	// ---- R3 close wakes ----------------------------------------------------------------------------
+	for _, c := range []struct {
+		fn  *ssa.Function
+		who int64
+	}{{ro.onHup, ro.whoPoller}, {ro.onClose, ro.whoUser}} {
+		starts := edgesEstablishing(c.fn, callResultAtom(ro.closeBy, true))
+		for _, t := range []struct {
+			name string
+			fn   *ssa.Function
+		}{{"read", ro.triggerRead}, {"write", ro.triggerWrite}} {
+			isTrig := func(i ssa.Instruction) bool {
+				if !isCall(i, t.fn) {
+					return false
+				}
+				return !isNilConst(argVal(callCommon(i), 0))
+			}
+			r.mustPass(prefix+":close-wakes-"+t.name+":"+c.fn.Name(), "after a successful closeBy the closer pushes a non-nil error on the "+t.name+" trigger on every path (a blocked reader / flusher is woken)", c.fn, nil, starts, isTrig, nil, nil, "trigger"+t.name+"(err) on every path")
+			// and before the callbacks recycle the buffers
+			for _, cb := range findIns(c.fn, func(i ssa.Instruction) bool { return isCall(i, ro.closeCallback) }) {
+				ss := &Search{Fn: c.fn, Stop: isTrig}
+				wit := ss.Find(starts, isIns(cb), false)
+				r.Visited += ss.Visited
+				r.obW(prefix+":wake-before-callbacks-"+t.name+":"+siteKey(w, cb), "the wake-up precedes the close callbacks on the closing path", c.fn, cb, wit, "trigger before closeCallback")
+			}
+		}
+	}
+
+	// and before a user callback: a blocked reader / flusher is released even if OnDisconnect blocks or waits for it
+	{
+		starts := edgesEstablishing(ro.onHup, callResultAtom(ro.closeBy, true))
+		for _, t := range []struct {
+			name string
+			fn   *ssa.Function
+		}{{"read", ro.triggerRead}, {"write", ro.triggerWrite}} {
+			isTrig := func(i ssa.Instruction) bool { return isCall(i, t.fn) && !isNilConst(argVal(callCommon(i), 0)) }
+			ss := &Search{Fn: ro.onHup, Stop: isTrig}
+			wit := ss.Find(starts, func(i ssa.Instruction) bool {
+				_, isC := i.(*ssa.Call)
+				return isC && px.May(i, "usercb")
+			}, false)
+			r.Visited += ss.Visited
+			r.obW(prefix+":wake-before-user-callbacks-"+t.name, "on hang-up the "+t.name+" wake-up is sent before any user callback (OnDisconnect) can run: a parked Flush/read is released at once, not after user code returns", ro.onHup, nil, wit, "trigger"+t.name+" before onDisconnect()")
+		}
+	}
 }
